@@ -52,6 +52,8 @@ func (s *ringStripe) Push(item uint64) {
 // (section III part A).
 type ringBuffer struct {
 	pool *sync.Pool
+
+	verifRing verifRingState
 }
 
 // newRingBuffer returns a striped ring buffer. The Consumer in ringConfig will
@@ -73,6 +75,9 @@ func newRingBuffer(cons ringConsumer, capa int64) *ringBuffer {
 // Push adds an element to one of the internal stripes and possibly drains if
 // the stripe becomes full.
 func (b *ringBuffer) Push(item uint64) {
+	if verifRingPush(b, item) {
+		return
+	}
 	// Reuse or create a new stripe.
 	stripe := b.pool.Get().(*ringStripe)
 	stripe.Push(item)
